@@ -34,11 +34,14 @@ class Check:
         return {}
 
 
-def guarded(c, name, fn, *a, **k):
+def guarded(c, name, fn, *a, _allow=(), **k):
     """Call real code; an exception nobody declared is itself a failed
-    obligation (candidate violation: 'raises on a valid input')."""
+    obligation (candidate violation: 'raises on a valid input').  Exception
+    classes listed in ``_allow`` are documented outcomes and propagate."""
     try:
         return True, fn(*a, **k)
+    except _allow:
+        raise
     except core.PathAbort:
         raise
     except core.Unsupported:
